@@ -1,7 +1,7 @@
-#!/bin/sh
+#!/bin/bash
 # Runs each seeded change against the check of its own property (quick tier) and stores the outcome next to it.
 cd "$(dirname "$0")/.." || exit 1
-for d in seeded/C[0-9][0-9][ab]; do
+for d in ${@:-seeded/C[0-9][0-9][a-z]}; do
   out=$(timeout 1800 tools/seedtest.py "$d" 2>&1)
   echo "$out" | grep -v "^{" | cut -c1-240
   echo "$out" | grep "^{" | tail -1 > "$d/detect.json"
